@@ -8,7 +8,7 @@ EV=/tmp/seedev-$$
 git -C /repo worktree add -q $WT HEAD || exit 9
 mkdir -p $EV
 cd /verif
-seeds="$@"; [ -z "$seeds" ] && seeds=$(ls seeded | grep -E '^C[0-9]+-m[0-9]+$')
+seeds="$@"; [ -z "$seeds" ] && seeds=$(ls seeded | grep -E '^C[0-9]+-(r[0-9])?m[0-9]+$')
 for s in $seeds; do
   p=${s%%-*}
   git -C $WT checkout -q -- . 
